@@ -1,4 +1,5 @@
 import AtsimModel.Model.RangeSearch
+import AtsimModel.Gen.Logic
 /-!
 # C08 — multi-range potentials select exactly the range that contains r
 
@@ -527,5 +528,200 @@ theorem C08_select_ties (l : List RD)
 example : List.Pairwise (fun a b : RD => a.start ≠ b.start) [⟨false, 4, 1⟩, ⟨true, 0, 2⟩, ⟨false, 2, 3⟩] := by decide
 example : selected [⟨false, 4, 1⟩, ⟨true, 0, 2⟩, ⟨false, 2, 3⟩] 4 = some 3 := by decide
 example : selected [⟨false, 4, 1⟩, ⟨true, 0, 2⟩, ⟨false, 2, 3⟩] 0 = some 2 := by decide
+
+/-! ## The code itself: `_range_defn_cmp` and `_range_search` regenerated from the source
+
+`Atsim.Gen.Logic.range_defn_cmp` / `range_search` are produced by `translator/py2lean_logic.py` from the text of
+`_multi_range_potential_form.py` on every run.  The generated functions work on records carrying the marker TEXT (`">"` / `">="`), the model on a
+Boolean `incl`; `toRD` is the obvious abstraction and `WF` says the marker is one of the two the parser and `Multi_Range_Defn` users can give.
+`C08_code_range_search` and `C08_code_cmp` state that the code's functions ARE the model's, so `C08_select`, `C08_select_ties`, … hold of the code as written now. -/
+namespace CodeTie
+open Atsim.Gen.Logic
+
+def toRD (p : PRange) : RD := { incl := p.range_type == ">=", start := p.start, f := p.f }
+def WF (p : PRange) : Prop := p.range_type = ">" ∨ p.range_type = ">="
+
+theorem incl_false_of_gt {p : PRange} (h : p.range_type = ">") : (toRD p).incl = false := by
+  simp [toRD, h]
+theorem incl_true_of_ge {p : PRange} (h : p.range_type = ">=") : (toRD p).incl = true := by
+  simp [toRD, h]
+
+/-- the marker tests of the generated code, in terms of `incl` -/
+theorem ge_test (p : PRange) : (p.range_type == ">=") = (toRD p).incl := rfl
+theorem gt_test (p : PRange) (h : WF p) : (p.range_type == ">") = !(toRD p).incl := by
+  rcases h with h | h <;> simp [toRD, h]
+
+theorem loop_eq (r : Int) (a b : List PRange) : ∀ (ts : List PRange) (last : Option PRange), (∀ p ∈ ts, WF p) →
+    (range_search_loop1 last r a b ts).map toRD = searchLoop r (last.map toRD) (ts.map toRD) := by
+  intro ts
+  induction ts with
+  | nil =>
+    intro last _
+    cases last with
+    | none => simp [range_search_loop1, searchLoop]
+    | some l =>
+      simp only [range_search_loop1, searchLoop, Option.map, List.map]
+      by_cases h : r > l.start <;> simp [h, toRD]
+  | cons t ts ih =>
+    intro last hwf
+    have hts : ∀ p ∈ ts, WF p := fun p hp => hwf p (by simp [hp])
+    simp only [range_search_loop1, searchLoop, List.map]
+    have ht : (toRD t).start = t.start := rfl
+    by_cases h1 : r = t.start
+    · subst h1
+      by_cases h2 : (toRD t).incl = true
+      · have : (t.range_type == ">=") = true := by rw [ge_test]; exact h2
+        simp [this, h2, ht]
+      · have h2' : (toRD t).incl = false := by simpa using h2
+        have : (t.range_type == ">=") = false := by rw [ge_test]; exact h2'
+        cases last with
+        | none =>
+          simp only [this, h2', ht, Option.map_some, Option.map_none, beq_self_eq_true, Bool.and_false, Bool.false_eq_true, if_false]
+          simpa using ih (some t) hts
+        | some l =>
+          have hl : (toRD l).start = l.start := rfl
+          by_cases h3 : t.start > l.start
+          · simp [this, h2', ht, hl, h3]
+          · simp only [this, h2', ht, hl, h3, Option.map_some, Option.map_none, beq_self_eq_true, Bool.and_false, Bool.false_eq_true, if_false, Int.le_refl, decide_true,
+              decide_false, Bool.and_self, Bool.true_and]
+            simpa using ih (some t) hts
+    · have hbeq : (r == t.start) = false := by simpa using h1
+      cases last with
+      | none =>
+        simp only [hbeq, ht, Option.map_some, Option.map_none, Bool.false_and, Bool.false_eq_true, if_false]
+        simpa using ih (some t) hts
+      | some l =>
+        have hl : (toRD l).start = l.start := rfl
+        by_cases h3 : r ≤ t.start
+        · by_cases h4 : r > l.start
+          · simp [hbeq, ht, hl, h3, h4]
+          · simp only [hbeq, ht, hl, h3, h4, Option.map_some, Option.map_none, Bool.false_and, Bool.false_eq_true, if_false, decide_true, decide_false, Bool.and_false, Bool.true_and]
+            simpa using ih (some t) hts
+        · simp only [hbeq, ht, hl, h3, Option.map_some, Option.map_none, Bool.false_and, Bool.false_eq_true, if_false, decide_false, Bool.false_and]
+          simpa using ih (some t) hts
+
+end CodeTie
+
+/-- **code tie**: for every list of well-formed range definitions (in whatever order the setter left them) and every r, the regenerated `_range_search`
+    returns exactly what the model's `rangeSearch` returns -/
+theorem C08_code_range_search (rt : List Atsim.Gen.Logic.PRange) (h : ∀ p ∈ rt, CodeTie.WF p) (r : Int) :
+    (Atsim.Gen.Logic.range_search rt r).map CodeTie.toRD = rangeSearch (rt.map CodeTie.toRD) r := by
+  unfold Atsim.Gen.Logic.range_search rangeSearch
+  cases rt with
+  | nil => simp
+  | cons t0 ts =>
+    have h0 : CodeTie.WF t0 := h t0 (by simp)
+    have ht : (CodeTie.toRD t0).start = t0.start := rfl
+    have hl := CodeTie.loop_eq r (t0 :: ts) (t0 :: ts) (t0 :: ts) none h
+    simp only [List.map, Option.map] at hl ⊢
+    by_cases h1 : r < t0.start
+    · simp [h1, ht]
+    · by_cases h2 : r = t0.start
+      · by_cases h3 : (CodeTie.toRD t0).incl = true
+        · have : (t0.range_type == ">") = false := by rw [CodeTie.gt_test t0 h0]; simp [h3]
+          simp [h1, h2, ht, h3, this]
+          simpa [h2] using hl
+        · have h3' : (CodeTie.toRD t0).incl = false := by simpa using h3
+          have : (t0.range_type == ">") = true := by rw [CodeTie.gt_test t0 h0]; simp [h3']
+          simp [h2, ht, h3', this]
+      · have hb : (r == t0.start) = false := by simpa using h2
+        simp [h1, hb, ht]
+        simpa using hl
+
+/-- **code tie**: the comparator the setter sorts with orders two well-formed definitions exactly as the model's `rdLe` does (`cmp <= 0` iff `rdLe`);
+    Python's `list.sort` with `cmp_to_key` is stable, which is what `sortRD` (stable insertion) models -/
+theorem C08_code_cmp (a b : Atsim.Gen.Logic.PRange) (ha : CodeTie.WF a) (hb : CodeTie.WF b) :
+    decide (Atsim.Gen.Logic.range_defn_cmp a b ≤ 0) = rdLe (CodeTie.toRD a) (CodeTie.toRD b) := by
+  unfold Atsim.Gen.Logic.range_defn_cmp rdLe
+  have hsa : (CodeTie.toRD a).start = a.start := rfl
+  have hsb : (CodeTie.toRD b).start = b.start := rfl
+  rcases ha with ha | ha <;> rcases hb with hb | hb <;>
+    by_cases h : a.start = b.start <;>
+    simp [CodeTie.toRD, ha, hb, h, hsa, hsb] <;> omega
+
+namespace CodeTie
+open Atsim.Gen.Logic
+
+theorem insert_eq (x : PRange) (hx : WF x) : ∀ (acc : List PRange), (∀ p ∈ acc, WF p) →
+    (insertBy (fun a b => decide (range_defn_cmp a b ≤ 0)) x acc).map toRD = insertRD (toRD x) (acc.map toRD) := by
+  intro acc
+  induction acc with
+  | nil => intro _; simp [insertBy, insertRD]
+  | cons y ys ih =>
+    intro h
+    have hy : WF y := h y (by simp)
+    have hys : ∀ p ∈ ys, WF p := fun p hp => h p (by simp [hp])
+    simp only [insertBy, insertRD, List.map, C08_code_cmp y x hy hx]
+    cases rdLe (toRD y) (toRD x) <;> simp [ih hys]
+
+theorem insert_wf (le : PRange → PRange → Bool) (x : PRange) (hx : WF x) : ∀ (acc : List PRange), (∀ p ∈ acc, WF p) → ∀ p ∈ insertBy le x acc, WF p := by
+  intro acc
+  induction acc with
+  | nil => intro _ p hp; simp [insertBy] at hp; subst hp; exact hx
+  | cons y ys ih =>
+    intro h p hp
+    simp only [insertBy] at hp
+    split at hp
+    · simp at hp
+      rcases hp with rfl | hp
+      · exact h _ (by simp)
+      · exact ih (fun q hq => h q (by simp [hq])) p hp
+    · simp at hp
+      rcases hp with rfl | rfl | hp
+      · exact hx
+      · exact h _ (by simp)
+      · exact h p (by simp [hp])
+
+theorem foldl_eq : ∀ (l acc : List PRange), (∀ p ∈ l, WF p) → (∀ p ∈ acc, WF p) →
+    (l.foldl (fun acc x => insertBy (fun a b => decide (range_defn_cmp a b ≤ 0)) x acc) acc).map toRD =
+      (l.map toRD).foldl (fun acc x => insertRD x acc) (acc.map toRD) := by
+  intro l
+  induction l with
+  | nil => intro acc _ _; rfl
+  | cons x xs ih =>
+    intro acc hl hacc
+    have hx : WF x := hl x (by simp)
+    have hxs : ∀ p ∈ xs, WF p := fun p hp => hl p (by simp [hp])
+    simp only [List.foldl, List.map]
+    rw [ih _ hxs (insert_wf _ x hx acc hacc), insert_eq x hx acc hacc]
+
+theorem foldl_wf (le : PRange → PRange → Bool) : ∀ (l acc : List PRange), (∀ p ∈ l, WF p) → (∀ p ∈ acc, WF p) →
+    ∀ p ∈ l.foldl (fun acc x => insertBy le x acc) acc, WF p := by
+  intro l
+  induction l with
+  | nil => intro acc _ h; exact h
+  | cons x xs ih =>
+    intro acc hl hacc
+    exact ih _ (fun p hp => hl p (by simp [hp])) (insert_wf le x (hl x (by simp)) acc hacc)
+
+end CodeTie
+
+/-- **code tie**: what the `range_defns` setter stores (a copy of the definitions, sorted by `_range_defn_key` - Python's sort is stable) is the model's
+    `sortRD`, for every list of well-formed definitions in any order, repeated starts and markers included -/
+theorem C08_code_setter (l : List Atsim.Gen.Logic.PRange) (h : ∀ p ∈ l, CodeTie.WF p) :
+    (Atsim.Gen.Logic.range_defns_setter l).map CodeTie.toRD = sortRD (l.map CodeTie.toRD) := by
+  unfold Atsim.Gen.Logic.range_defns_setter Atsim.Gen.Logic.stableSortBy sortRD
+  exact CodeTie.foldl_eq l [] h (by simp)
+
+/-- **the selection theorem for the code as written**: store the definitions through the code's setter, search with the code's `_range_search`:
+    for pairwise distinct starts, in any listing order, the range selected is the one the property's rule gives -/
+theorem C08_code_select (l : List Atsim.Gen.Logic.PRange) (hwf : ∀ p ∈ l, CodeTie.WF p)
+    (hd : List.Pairwise (fun a b => a.start ≠ b.start) (l.map CodeTie.toRD)) (r : Int) :
+    IsSel (l.map CodeTie.toRD) r ((Atsim.Gen.Logic.range_search (Atsim.Gen.Logic.range_defns_setter l) r).map CodeTie.toRD) := by
+  have hswf : ∀ p ∈ Atsim.Gen.Logic.range_defns_setter l, CodeTie.WF p := by
+    unfold Atsim.Gen.Logic.range_defns_setter Atsim.Gen.Logic.stableSortBy
+    exact CodeTie.foldl_wf _ l [] hwf (by simp)
+  rw [C08_code_range_search _ hswf r, C08_code_setter l hwf]
+  exact C08_select (l.map CodeTie.toRD) hd r
+
+/-- and with the tie rule, for every list in which no two ranges share both start and marker -/
+theorem C08_code_select_ties (l : List Atsim.Gen.Logic.PRange) (hwf : ∀ p ∈ l, CodeTie.WF p)
+    (hd : List.Pairwise (fun a b => ¬ (a.start = b.start ∧ a.incl = b.incl)) (l.map CodeTie.toRD)) (r : Int) :
+    IsSelTie (l.map CodeTie.toRD) r ((Atsim.Gen.Logic.range_search (Atsim.Gen.Logic.range_defns_setter l) r).map CodeTie.toRD) := by
+  have hswf : ∀ p ∈ Atsim.Gen.Logic.range_defns_setter l, CodeTie.WF p := by
+    unfold Atsim.Gen.Logic.range_defns_setter Atsim.Gen.Logic.stableSortBy
+    exact CodeTie.foldl_wf _ l [] hwf (by simp)
+  rw [C08_code_range_search _ hswf r, C08_code_setter l hwf]
+  exact C08_select_ties (l.map CodeTie.toRD) hd r
 
 end Atsim.C08
